@@ -60,6 +60,7 @@ def make_harness(cfg, tw):
     only_protos = cfg.get("only_protos", False)
     resub = cfg.get("resub", False)   # queries are copies of training samples (C04)
     N = n + nu + nq
+    hist = cfg.get("hist", 0)  # the object was used before: fitted on `hist` other samples (rows N.. of the table) and asked for a prediction
     ids = cfg.get("ids")      # position i stands for row ids[i] of the table (Node.idx != position); unlabeled positions keep their own row
     sup = tw.mod("opfython.models.supervised")
     semi_mod = tw.mod("opfython.models.semi_supervised")
@@ -67,10 +68,12 @@ def make_harness(cfg, tw):
 
     def harness():
         eng = core.engine()
-        Wfull = models.sym_matrix(eng, (max(ids) + 1) if ids else N, symmetric=True, diag="zero" if zero_diag else "free",
+        Wfull = models.sym_matrix(eng, (max(ids) + 1) if ids else (N + hist + 1 if hist else N), symmetric=True, diag="zero" if zero_diag else "free",
                                   distinct=distinct, positive=cfg.get("positive", False))
         # W is always indexed by position; the model reads the table through the sample identifiers
         W = [[Wfull[ids[i]][ids[j]] for j in range(N)] for i in range(N)] if ids else Wfull
+        if hist:
+            W = [r[:N] for r in Wfull[:N]]
         labels = models.sym_labels(eng, n, K, two_classes=False)
         assume_partition(eng, labels, part)
         cls = semi_mod.SemiSupervisedOPF if semi else sup.SupervisedOPF
@@ -81,6 +84,16 @@ def make_harness(cfg, tw):
             opf.subgraph = core_mod.Subgraph(X, Y, I=I)
             opf._find_prototypes()
             return out
+        if hist:
+            # earlier life of the same object: a fit on other (symbolic) data and a prediction with it
+            X0, Y0, I0 = models.data_for(branch, hist, [i % 2 for i in range(hist)], offset=N)
+            if semi:
+                Xu0, _, _ = models.data_for(branch, 1, None, offset=N + hist)
+                opf.fit(X0, Y0, Xu0, I0)
+            else:
+                opf.fit(X0, Y0, I0)
+            Xq0, _, Iq0 = models.data_for(branch, 1, None, offset=n + nu)
+            out["hist_preds"] = opf.predict(Xq0, Iq0)
         if semi:
             Xu, _, _ = models.data_for(branch, nu, None, offset=n)
             opf.fit(X, Y, Xu, I)
